@@ -462,11 +462,18 @@ fn make_summary_txs(
                 // Copy, and add add SFL
                 match &mut unsum_tx.action_specifics {
                     crate::portfolio::TxActionSpecifics::Sell(sell_specs) => {
+                        // An amount the user forced ('!') must stay forced, or the
+                        // summary would be rejected when it is read back.
+                        let force = sell_specs
+                            .specified_superficial_loss
+                            .as_ref()
+                            .map(|s| s.force)
+                            .unwrap_or(false);
                         sell_specs.specified_superficial_loss = Some(SFLInput {
                             superficial_loss: LessEqualZeroDecimal::from(
                                 sfl.superficial_loss,
                             ),
-                            force: false,
+                            force,
                         });
                     }
                     _ => {
